@@ -182,6 +182,32 @@ class TableEntry (object):
     return fr
 
 
+def _matches_overlap (a, b):
+  """
+  Tests whether a single packet could match both ofp_match a and ofp_match b
+
+  Two matches are disjoint only if there is a field which both of them
+  specify and on which they disagree (for nw_src/nw_dst: disagree within
+  the shorter of the two prefixes).
+  """
+  for field in ('in_port', 'dl_vlan', 'dl_src', 'dl_dst', 'dl_type',
+                'nw_proto', 'tp_src', 'tp_dst', 'dl_vlan_pcp', 'nw_tos'):
+    va = getattr(a, field)
+    vb = getattr(b, field)
+    if va is not None and vb is not None and va != vb:
+      return False
+
+  for get in (ofp_match.get_nw_src, ofp_match.get_nw_dst):
+    ip_a,bits_a = get(a)
+    ip_b,bits_b = get(b)
+    if ip_a is None or ip_b is None: continue
+    mask = ~((1 << (32 - min(bits_a, bits_b))) - 1)
+    if (IPAddr(ip_a).toUnsigned() ^ IPAddr(ip_b).toUnsigned()) & mask:
+      return False
+
+  return True
+
+
 class FlowTableModification (Event):
   def __init__ (self, added=[], removed=[], reason=None):
     self.added = added
@@ -348,7 +374,7 @@ class FlowTable (EventMixin):
       elif e.effective_priority > priority:
         continue
       else:
-        if e.is_matched_by(in_entry.match) or in_entry.is_matched_by(e.match):
+        if _matches_overlap(e.match, in_entry.match):
           return True
 
     return False
